@@ -180,7 +180,7 @@ def build_fabio(ctx):
     _fabio[id(ctx)] = _pool.submit(job)
 
 
-def go_tcp(ctx, cases, what, lanes=8, timeout=840):
+def go_tcp(ctx, cases, what, lanes=12, timeout=840):
     env = {"VERIF_IN": cases, "VERIF_LANES": lanes}
     f = _fabio.get(id(ctx))
     if f is not None:
@@ -279,8 +279,8 @@ def build_cases(ctx, sink):
                     # the terminating listener: TLS 1.2 reports close_notify as its own record (data + EOF in one Read)
                     c.update(tlsver=rng.choice([12, 12, 13]), cork=rng.random() < 0.8)
                 (ws if path == "ws" else tcp).append(c)
-    tcp += rng.sample(rtc, min(len(rtc), 64 if not ctx.thorough else 480))
-    tcp += rng.sample(idle, min(len(idle), 64 if not ctx.thorough else 480))
+    tcp += rng.sample(rtc, min(len(rtc), 40 if not ctx.thorough else 480))
+    tcp += rng.sample(idle, min(len(idle), 40 if not ctx.thorough else 480))
     tcp += rng.sample(dynb, min(len(dynb), 6 if not ctx.thorough else 40))
     return tcp, ws, len(by)
 
